@@ -105,7 +105,11 @@ def mutations(e, rng):
         if k == 'ExprInt':
             w = nd.arg.size
             muts.append(('value', exprgen.Int(int(nd.arg) ^ 1, w)))
-            w2 = {1: 8, 8: 16, 16: 32, 32: 64, 64: 32}[w]
+            if w > 8:
+                muts.append(('value-top-bit', exprgen.Int(int(nd.arg) ^ (1 << (w - 1)), w)))
+            if w == 128:
+                muts.append(('value-bit-64', exprgen.Int(int(nd.arg) ^ (1 << 64), w)))
+            w2 = {1: 8, 8: 16, 16: 32, 32: 64, 64: 32, 128: 64}[w]
             if int(nd.arg) < (1 << min(w, w2)):
                 muts.append(('size', exprgen.Int(int(nd.arg), w2)))
         elif k == 'ExprId':
@@ -310,6 +314,31 @@ def check_tree(sh, e, rng, seedtag):
                     break
         except (irsem.Undefined, irsem.Uninterpreted, irsem.IllFormed):
             pass
+    # --- the same substitutions on a copy whose memory cells (and root) are marked is_term, as the evaluator marks the cells it
+    # hands back: the mark is not part of the structure and must not stop a traversal
+    try:
+        ef = exprgen.fresh_copy(e)
+        marked = 0
+        for t in exprgen.subterms(ef):
+            if t.__class__.__name__ in ('ExprMem', 'ExprOp', 'ExprCond'):
+                t.is_term = True
+                marked += 1
+        if marked:
+            for ck in keys[:4]:
+                t = subs[ck]
+                if is_aff and (exprgen.canon(e.dst) == ck):
+                    continue
+                w = irsem.width(t)
+                z = ex.ExprId('z_fresh%d' % w, w)
+                sh.case(('replace-marked', c, ck), cls='replace-marked:%s' % t.__class__.__name__)
+                got = ef.replace_expr({exprgen.fresh_copy(t): z})
+                want = ref_subst(e, {ck: z})
+                if exprgen.canon(got) != exprgen.canon(want):
+                    law('replace-structure', t.__class__.__name__, 'under-is_term-node/' + _where(e, ck), 'replace %s by z in %s (compound nodes marked is_term) gives %s, reference %s' % (t, e, got, want), {'sub': ck})
+    except irsem.IllFormed:
+        pass
+    except Exception as exn:
+        law('replace-raises:%s' % type(exn).__name__, top, 'under-is_term-node', '%r on %s' % (exn, e))
     # --- coincidence substitutions: replace a subterm by ANOTHER subterm of the same tree and width (the result then
     # contains equal siblings: 'unchanged, return self' shortcuts that compare with the wrong sibling only fail here)
     byw = {}
@@ -463,6 +492,13 @@ def fixed_trees():
         ex.ExprOp('parity', ex.ExprOp('-', b, a)), ex.ExprOp('*', b, a, c),
         ex.ExprOp('|', ex.ExprOp('<<', c, a), ex.ExprOp('>>', b, a)),
     ]
+    # xmm-sized (128-bit) constants and cells
+    x128 = Id('xmm0', 128)
+    for v in (0, 1, 1 << 64, 1 << 127, (1 << 128) - 1, 0x0123456789abcdef, (1 << 64) | 5):
+        out.append(ex.ExprOp('^', x128, I(v, 128)))
+        out.append(ex.ExprCompose([(I(v & 0xffffffffffffffff, 64), 0, 64), (ex.ExprSlice(I(v, 128), 64, 128), 64, 128)]))
+    out.append(ex.ExprMem(p, 128))
+    out.append(ex.ExprCond(I(1 << 64, 128), a, b))
     return out
 
 
